@@ -3,7 +3,8 @@ import LeptosModel.Model.Store
 # C16 — store writes notify exactly the fields on the written path
 
 Property theorems about `Model/Store` (see its header for the map to the Rust code), which models /repo
-**after** fix-c16-1 (`FieldKeys::new`), fix-c16-2 (`AtIndex::writer`), fix-c16-3 (`track_field`), fix-c16-4 (`iter_unkeyed`).
+**after** fix-c16-1 (`FieldKeys::new`), fix-c16-2 (`AtIndex::writer`), fix-c16-3 (`track_field`), fix-c16-4 (`iter_unkeyed`),
+fix-c16-5 (`ArcField::from(Store)` write), fix-c16-6 (enum variant field segments).
 
 Paths (root store, struct fields, `unwrap()`, elements by index, keyed fields), any depth:
 * `C16_notify_iff_related` — a write through `p` and a reader of `q` share a trigger iff `p`, `q` are prefix-related.
@@ -26,7 +27,8 @@ Regression (the code before the repairs, `…Old` definitions): `C16_segment_col
 `C16_keys_stable_old_false`, `C16_keys_stable_old_partial`, `C16_keys_boundary_old` (F-C16-1);
 `C16_index_write_wakes_cousin_witness` (F-C16-2); `C16_keyed_field_misses_root_witness`,
 `C16_at_keyed_misses_parent_witness`, `C16_at_index_misses_parent_witness` (F-C16-3);
-`C16_iter_unkeyed_misses_ancestor_witness` (F-C16-7).
+`C16_iter_unkeyed_misses_ancestor_witness` (F-C16-7); `C16_root_handle_write_misses_descendants_witness` (F-C16-8);
+`C16_enum_variant_fields_share_segment_witness` (F-C16-9).  Type erasure: `C16_erasure_transparent_set` / `_patch` / `_reader`.
 
 Witnesses (kernel `decide` on concrete machine histories) of the defects that remain:
 `C16_patch_keyed_by_index_witness` (F-C16-4), `C16_stale_keys_panic_witness` (F-C16-5),
@@ -1718,12 +1720,12 @@ theorem C16_subscription_order_below_written_field :
 
 /-- **erasure is transparent for writes**: converting the accessor after any number `k` of steps into a
 `Field` / `ArcField` and writing through the rest of the chain does exactly what the un-erased chain does —
-same value, same notifications in the same order, same key tables — for every chain except the store
-itself (see `C16_root_handle_write_misses_descendants_witness`) -/
-theorem C16_erasure_transparent_set (st : St) (c : Chain) (v : Val) (k : Nat) (hc : c ≠ []) :
+same value, same notifications in the same order, same key tables — for every chain, since fix-c16-5 the
+store itself included -/
+theorem C16_erasure_transparent_set (st : St) (c : Chain) (v : Val) (k : Nat) :
     stepOp st (.set c v (some k)) = stepOp st (.set c v none) := by
   cases c with
-  | nil => exact absurd rfl hc
+  | nil => rfl
   | cons a r => rfl
 
 /-- … and for `patch` through a handle, for every chain, the store itself included -/
@@ -1739,15 +1741,16 @@ theorem C16_erasure_transparent_reader (st : St) (c : Chain) (kind : RKind) (imm
   have h := (walk_plainChain { st with log := [] } (c.take k) hpl).1
   simp only [stepOp, h]
 
-/-- F-C16-8: a write of the whole store through a `Field<Root>` / `ArcField<Root>` handle notifies
-`children[]` only (`ArcField::from(Store)` uses `ArcStore::writer`, not `Store::try_write`): the reader of
-`mid.inner.v` is not woken, while the same write through the store wakes it -/
+/-- F-C16-8 (repaired by fix-c16-5): a write of the whole store through a `Field<Root>` / `ArcField<Root>`
+handle used to notify `children[]` only, which no reader of a field below the root tracks; now it wakes the
+reader of `mid.inner.v` like the same write through the store -/
 theorem C16_root_handle_write_misses_descendants_witness :
-    let st := runOps (St.init (demoRoot (demoMid []) [] [] []))
+    (∀ t ∈ rootHandleNotifyOld, t ∉ trackSet [1, 1, 0]) ∧
+    related [] [.fld 1, .fld 1, .fld 0] = true ∧
+    (let st := runOps (St.init (demoRoot (demoMid []) [] [] []))
       [.reader [.fld 1, .fld 1, .fld 0] .plain false none, .reader [] .plain false none, .idle]
-    (stepOp st (.set [] (demoRoot (demoMid []) [leafSt 1 1] [] []) (some 0))).1.ready = [1] ∧
-    (stepOp st (.set [] (demoRoot (demoMid []) [leafSt 1 1] [] []) none)).1.ready = [0, 1] ∧
-    related [] [.fld 1, .fld 1, .fld 0] = true := by decide
+     (stepOp st (.set [] (demoRoot (demoMid []) [leafSt 1 1] [] []) (some 0))).1.ready = [0, 1] ∧
+     (stepOp st (.set [] (demoRoot (demoMid []) [leafSt 1 1] [] []) none)).1.ready = [0, 1]) := by decide
 
 def enA (x y : Nat) : Val := .node .enumv [.leaf 0, .leaf x, .leaf y]
 /-- a store whose field 0 is the enum `En::A { x, y }` and whose field 1 is a struct with a skipped field in the
@@ -1755,12 +1758,14 @@ middle (`SkipMid { a, #[store(skip)] s, b, c }`) -/
 def stShapes : St :=
   St.init (.node .struct [enA 1 2, .node .struct [.leaf 10, .leaf 11, .leaf 12, leafSt 13 14]])
 
-/-- F-C16-9: `derive(Store)` gives every field of an enum variant the path segment 0, so a write through
-the held `Subfield` of `A.x` wakes the reader that holds the `Subfield` of `A.y` -/
+/-- F-C16-9 (repaired by fix-c16-6): `derive(Store)` used to give every field of an enum variant the path
+segment 0 (`varSegOld`), so the held `Subfield`s of `A.x` and `A.y` shared their triggers; now they have
+different paths and a write through `A.x` leaves the reader that holds `A.y` asleep -/
 theorem C16_enum_variant_fields_share_segment_witness :
-    (walk stShapes [.fld 0, .var 0 0]).2.tpath = (walk stShapes [.fld 0, .var 0 1]).2.tpath ∧
-    (runOps stShapes [.reader [.fld 0, .var 0 1] .plain false none, .idle,
-                      .set' [.fld 0, .var 0 0] (.leaf 9)]).ready = [0] ∧
+    varSegOld 0 = varSegOld 1 ∧
+    (walk stShapes [.fld 0, .var 0 0]).2.tpath ≠ (walk stShapes [.fld 0, .var 0 1]).2.tpath ∧
+    (runOps stShapes [.reader [.fld 0, .var 0 1] .plain false none, .reader [.fld 0, .var 0 0] .plain false none,
+                      .idle, .set' [.fld 0, .var 0 0] (.leaf 9)]).ready = [1] ∧
     related [.fld 0, .var 0 0] [.fld 0, .var 0 1] = false := by decide
 
 /-- `derive(Store)` and `derive(Patch)` agree on the path segment of the fields that follow a
